@@ -273,29 +273,27 @@ def pick(site, unitary, diag=None):
     return 'Id'
 
 
-def two_site_op(siteL, siteR, kind, seed, nsites=2):
-    """Deterministic charge-conserving n-site operator: 'G' generic, 'U' unitary, 'T' = 'G' with transposed legs."""
+def n_site_op(sites, kind, seed):
+    """Deterministic charge-conserving operator on the given sites (labels p0, p0*, ...): 'G' generic, 'U' unitary,
+    'T' = 'G' with the legs in reversed order.  Returns (npc operator, dense matrix)."""
     import tenpy.linalg.np_conserved as npc
-    sites = [siteL, siteR] if nsites == 2 else list(siteL)
-    rng = np.random.default_rng([seed, 77, nsites])
+    n = len(sites)
+    rng = np.random.default_rng([seed, 77, n])
     legs = [s.leg for s in sites] + [s.leg.conj() for s in sites]
-    labels = ['p%d' % k for k in range(nsites)] + ['p%d*' % k for k in range(nsites)]
+    labels = ['p%d' % k for k in range(n)] + ['p%d*' % k for k in range(n)]
+    d = int(np.prod([s.dim for s in sites]))
 
     def fn(shape):
         return rng.standard_normal(shape) + 1j * rng.standard_normal(shape)
 
     G = npc.Array.from_func(fn, legs, dtype=complex, labels=labels)
     if kind == 'U':
-        d = int(np.prod([s.dim for s in sites]))
         g = G.to_ndarray().reshape(d, d)
         mask = npc.Array.from_func(np.ones, legs, dtype=float).to_ndarray().reshape(d, d) != 0
         w, v = np.linalg.eigh(g + g.conj().T)
-        u = ((v * np.exp(0.3j * w)) @ v.conj().T) * mask
-        G = npc.Array.from_ndarray(u.reshape(G.shape), legs, labels=labels, cutoff=1e-12)
-    if kind == 'T':
-        G = G.transpose(labels[::-1][1:] + labels[-1:]) if nsites == 2 else G.transpose(labels[::-1])
-    d = int(np.prod([s.dim for s in sites]))
-    return G, G.transpose(labels).to_ndarray().reshape(d, d)
+        G = npc.Array.from_ndarray((((v * np.exp(0.3j * w)) @ v.conj().T) * mask).reshape(G.shape), legs, labels=labels, cutoff=1e-12)
+    mat = G.to_ndarray().reshape(d, d)
+    return (G.transpose(labels[::-1]) if kind == 'T' else G), mat
 
 
 # ------------------------------------------------------------------------------------------------ shadow helpers
@@ -348,15 +346,20 @@ def finish(sh, renorm, zero_ok=True):
 
 # ------------------------------------------------------------------------------------------------ transitions
 
-def trunc_check(what, sh_expected, psi2, err):
-    """Documented meaning of a returned TruncationError; returns True if something was discarded."""
+def trunc_check(what, candidates, psi2, err):
+    """Documented meaning of a returned TruncationError; returns True if something was discarded.
+
+    `candidates`: shadows of the exact (untruncated) result; err.ov must bound the overlap with (one of) them."""
+    from tenpy.linalg.truncation import TruncationError
+    if not isinstance(err, TruncationError):
+        raise Viol(what + ':no-trunc-err', 'returned %r instead of a TruncationError' % (err,))
     if not (0 <= err.eps < 1 + 1e-12) or not err.ov <= 1 + 1e-12:
         raise Viol(what + ':trunc-err-range', 'TruncationError(eps=%r, ov=%r)' % (err.eps, err.ov))
     if err.eps < 1e-20:
         return False
-    if sh_expected.bc != 'infinite':
+    if psi2.bc != 'infinite':
         T = psi_T(psi2, what)
-        ov = abs(np.vdot(sh_expected.T, T)) ** 2 / (np.linalg.norm(T) ** 2 * np.linalg.norm(sh_expected.T) ** 2)
+        ov = max(abs(np.vdot(c.T, T)) ** 2 / (np.linalg.norm(T) ** 2 * np.linalg.norm(c.T) ** 2) for c in candidates)
         if ov < err.ov - 1e-9:
             raise Viol(what + ':overlap-below-bound', 'overlap^2 with the exact result %.10g < reported bound ov=%.10g' % (ov, err.ov))
     return True
@@ -365,15 +368,21 @@ def trunc_check(what, sh_expected, psi2, err):
 def reanchor(psi2, sh2, what):
     """After a genuine truncation the exact result is unknown: continue from the state actually produced."""
     T = psi_T(psi2, what)
+    sh2.T = T
     if sh2.bc == 'infinite':
-        sh2.T = T
         sh2.normalize(keep_norm=True)
-    else:
-        if abs(np.linalg.norm(T) - 1) > TOL[sh2.bc]:
-            raise Viol(what + ':tensor-norm', 'tensors of the truncated result are not normalised (%.12g)' % np.linalg.norm(T))
-        sh2.T = T
+    elif abs(np.linalg.norm(T) - 1) > TOL[sh2.bc]:
+        raise Viol(what + ':tensor-norm', 'tensors of the truncated result are not normalised (%.12g)' % np.linalg.norm(T))
     sh2.norm = psi2.norm
     sh2._cache = None
+
+
+METHOD = {'op': 'apply_local_op', 'op2': 'apply_local_op', 'op3': 'apply_local_op', 'prod': 'apply_product_op',
+          'term': 'apply_local_term', 'swap': 'swap_sites', 'perm': 'permute_sites', 'add': 'add',
+          'group': 'group_sites', 'split': 'group_split', 'chi': 'enlarge_chi', 'compress': 'compress_svd',
+          'inv': 'spatial_inversion', 'cell': 'enlarge_mps_unit_cell', 'roll': 'roll_mps_unit_cell',
+          'form': 'convert_form', 'segment': 'extract_segment', 'enl': 'extract_enlarged_segment',
+          'gauge': 'gauge_total_charge', 'copy': 'copy'}
 
 
 def step(psi, sh, act, ctx):
@@ -381,19 +390,13 @@ def step(psi, sh, act, ctx):
 
     psi2 is None when the transition has no successor state (documented rejection, destroyed state, leaf)."""
     import tenpy.linalg.np_conserved as npc
-    from tenpy.linalg.truncation import TruncationError
     kind = act[0]
     bc = sh.bc
     psi2, sh2 = psi.copy(), sh.copy()
     seed = ctx.get('rng_seed', 0)
-    canonical, signfree, check_norm = True, False, True
-    name = {'op': 'apply_local_op', 'op2': 'apply_local_op', 'op3': 'apply_local_op', 'prod': 'apply_product_op',
-            'term': 'apply_local_term', 'swap': 'swap_sites', 'perm': 'permute_sites', 'add': 'add',
-            'group': 'group_sites', 'split': 'group_split', 'chi': 'enlarge_chi', 'compress': 'compress_svd',
-            'inv': 'spatial_inversion', 'cell': 'enlarge_mps_unit_cell', 'roll': 'roll_mps_unit_cell',
-            'form': 'convert_form', 'segment': 'extract_segment', 'enl': 'extract_enlarged_segment',
-            'gauge': 'gauge_total_charge', 'copy': 'copy'}[kind]
-    what = name + ':' + bc
+    # canonical: True = the method promises canonical form, None = preserves it, False = a truncation destroyed it
+    canonical, signfree, check_norm = None, False, True
+    what = METHOD[kind] + ':' + bc
 
     def expect_reject(call, why):
         try:
@@ -412,7 +415,7 @@ def step(psi, sh, act, ctx):
     if kind == 'op':
         _, i, opname, unitary, renorm = act
         site = sh.elem[i]
-        M, _, need = op_info(site)[opname]
+        M, is_unitary, need = op_info(site)[opname]
         call = lambda: psi2.apply_local_op(i, opname, unitary=unitary, renormalize=renorm, understood_infinite=True)  # noqa: E731
         if need and (bc == 'infinite' or not site.leg.chinfo.qnumber):
             return expect_reject(call, 'JW-string-impossible')
@@ -422,22 +425,23 @@ def step(psi, sh, act, ctx):
         if finish(sh2, renorm):
             return destroyed(call)
         signfree = need and not exact_jw(psi, i)
+        canonical = None if (unitary or (unitary is None and is_unitary)) else True
         call()
     elif kind in ('op2', 'op3'):
         _, i, okind, unitary, renorm = act
         m = 2 if kind == 'op2' else 3
-        sites = [psi.sites[(i + k) % psi.L] for k in range(m)]
-        op, mat = two_site_op(sites[0], sites[1], okind, seed) if m == 2 else two_site_op(sites, None, okind, seed, 3)
+        op, mat = n_site_op([psi.sites[(i + k) % psi.L] for k in range(m)], okind, seed)
         apply_on(sh2, i, mat, m)
         finish(sh2, renorm)
+        canonical = None if (unitary or (unitary is None and okind == 'U')) else True
         psi2.apply_local_op(i, op, unitary=unitary, renormalize=renorm, understood_infinite=True)
     elif kind == 'prod':
         _, names, unitary, renorm = act
-        mats = [op_info(s)[names[k % len(names)]][0] for k, s in enumerate(sh.elem)]
-        sh2.T = D.apply_full(sh.T, D.kron_all(mats))
+        sh2.T = D.apply_full(sh.T, D.kron_all([op_info(s)[names[k % len(names)]][0] for k, s in enumerate(sh.elem)]))
         call = lambda: psi2.apply_product_op(list(names), unitary=unitary, renormalize=renorm)  # noqa: E731
         if finish(sh2, renorm):
             return destroyed(call)
+        canonical = None if unitary else True
         call()
     elif kind == 'term':
         _, term, autoJW, off, renorm = act
@@ -458,60 +462,53 @@ def step(psi, sh, act, ctx):
         if finish(sh2, renorm):
             return destroyed(call)
         signfree = odd and not exact_jw(psi, imin)
+        canonical = True
         call()
-    elif kind in ('swap', 'perm'):
-        if kind == 'swap':
-            _, i, skind, chi_max = act
-            order = None
-        else:
-            _, order, chi_max = act
-            skind = 'auto'
-        tp = None if chi_max is None else {'chi_max': chi_max}
-        if kind == 'swap':
-            def fn(s, j):
-                o = list(range(s.L))
-                o[j], o[j + 1] = o[j + 1], o[j]
-                s.T, s.elem, s.blocks = D.permute_blocks(s.T, s.elem, s.blocks, o, {'none': None, 'explicit': 'auto'}.get(skind, skind))
-            at_front(sh2, i, fn)
-            sop = {'auto': 'auto', 'none': None, 'autoInv': 'autoInv'}.get(skind)
-            if skind == 'explicit':  # the recipe of the doc-string of swap_sites
-                sL, sR = psi.sites[i], psi.sites[i + 1]
-                dense = np.diag((-1.0) ** np.outer(sL.JW_exponent, sR.JW_exponent).reshape(sL.dim * sR.dim))
-                sop = npc.Array.from_ndarray(dense.reshape([sL.dim, sR.dim, sL.dim, sR.dim]),
-                                             [sL.leg, sR.leg, sL.leg.conj(), sR.leg.conj()], labels=['p1', 'p0', 'p0*', 'p1*'])
-            err = psi2.swap_sites(i, sop, tp)
-        else:
-            sh2.T, sh2.elem, sh2.blocks = D.permute_blocks(sh.T, sh.elem, sh.blocks, list(order), 'auto')
-            err = psi2.permute_sites(list(order), 'auto', tp) if tp else psi2.permute_sites(list(order))
-            inverse = [list(order).index(k) for k in range(sh.L)]
-            if inverse != list(order) and [repr(s) for s in psi2.sites] == [repr(psi.sites[k]) for k in inverse] and (
-                    len({repr(s) for s in psi.sites}) > 1 or bc == 'infinite' or not trunc_check(what, sh2, psi2, err)):
-                # documented: new site i = old site perm[i]; does the result follow the inverse convention instead?
-                alt = sh.copy()
-                alt.T, alt.elem, alt.blocks = D.permute_blocks(sh.T, sh.elem, sh.blocks, inverse, 'auto')
-                alt.parent = None
-                try:
-                    check(psi2, sh2, what, canonical=False)
-                except Viol as v:
-                    if v.key.split(':')[-1] in ('state', 'sites'):
-                        try:
-                            check(psi2, alt, what, canonical=False)
-                        except Viol:
-                            raise v
-                        raise Viol(what + ':inverse-convention', 'result is site i -> position perm[i] (new[perm[i]] = old[i]), '
-                                   'documented is new[i] = old[perm[i]]', cont=(psi2, alt))
-                    raise
-        sh2._cache = None
+    elif kind == 'swap':
+        _, i, skind, chi_max = act
+
+        def fn(s, j):
+            o = list(range(s.L))
+            o[j], o[j + 1] = o[j + 1], o[j]
+            s.T, s.elem, s.blocks = D.permute_blocks(s.T, s.elem, s.blocks, o, {'none': None, 'explicit': 'auto'}.get(skind, skind))
+        at_front(sh2, i, fn)
+        sop = {'auto': 'auto', 'none': None, 'autoInv': 'autoInv'}.get(skind)
+        if skind == 'explicit':  # the recipe of the doc-string of swap_sites
+            sL, sR = psi.sites[i], psi.sites[i + 1]
+            dense = np.diag((-1.0) ** np.outer(sL.JW_exponent, sR.JW_exponent).reshape(sL.dim * sR.dim))
+            sop = npc.Array.from_ndarray(dense.reshape([sL.dim, sR.dim, sL.dim, sR.dim]),
+                                         [sL.leg, sR.leg, sL.leg.conj(), sR.leg.conj()], labels=['p1', 'p0', 'p0*', 'p1*'])
+        err = psi2.swap_sites(i, sop, None if chi_max is None else {'chi_max': chi_max})
         sh2.parent = None
-        if not isinstance(err, TruncationError):
-            raise Viol(what + ':no-trunc-err', 'returned %r instead of a TruncationError' % (err,))
-        if trunc_check(what, sh2, psi2, err):
-            if bc == 'infinite' or sh2.zeroS:
-                check_norm = False
-            elif abs(psi2.norm - sh.norm) > 1e-12:
-                raise Viol(what + ':norm', 'truncating swap changed psi.norm %.12g -> %.12g' % (sh.norm, psi2.norm))
+        if trunc_check(what, [sh2], psi2, err):
             reanchor(psi2, sh2, what)
             canonical = False
+    elif kind == 'perm':
+        _, order, chi_max = act
+        order = list(order)
+        inverse = [order.index(k) for k in range(sh.L)]
+        sh2.T, sh2.elem, sh2.blocks = D.permute_blocks(sh.T, sh.elem, sh.blocks, order, 'auto')
+        alt = sh.copy()     # the inverse convention, to pin down (and explore behind) a mix-up of perm and its inverse
+        alt.T, alt.elem, alt.blocks = D.permute_blocks(sh.T, sh.elem, sh.blocks, inverse, 'auto')
+        sh2.parent = alt.parent = None
+        err = psi2.permute_sites(order) if chi_max is None else psi2.permute_sites(order, 'auto', {'chi_max': chi_max})
+        if trunc_check(what, [sh2, alt], psi2, err):
+            reanchor(psi2, sh2, what)
+            sh2.elem, sh2.blocks = D.site_blocks(psi2.sites)
+            canonical = False
+        elif inverse != order:
+            try:
+                check(psi2, sh2, what, canonical=False)
+            except Viol as v:
+                if v.key.split(':')[-1] not in ('state', 'sites'):
+                    raise
+                try:
+                    check(psi2, alt, what, canonical=False)
+                except Viol:
+                    raise v
+                alt.canon = sh.canon
+                raise Viol(what + ':inverse-convention', 'the result has old site i at position perm[i] (new[perm[i]] = '
+                           'old[i]); documented: psi.permute_sites(perm)[i] = psi[perm[i]]', cont=(psi2, alt))
     elif kind == 'add':
         _, okind, ci = act
         alpha, beta = COEFFS[ci]
@@ -531,6 +528,8 @@ def step(psi, sh, act, ctx):
         sh2.T = alpha * sh.norm * sh.T + beta * To
         sh2.norm = 1.0
         sh2.normalize()
+        sh2.zeroS = False
+        canonical = True
         psi2 = psi.add(other, alpha, beta)
         if psi2.chinfo.qnumber and np.any(psi2.get_total_charge() != psi.get_total_charge()):
             raise Viol(what + ':total-charge', 'sum has total charge %r, self %r' % (psi2.get_total_charge(), psi.get_total_charge()))
@@ -538,20 +537,20 @@ def step(psi, sh, act, ctx):
         n = act[1]
         sh2.blocks = [tuple(sh.blocks[k:k + n]) for k in range(0, sh.L, n)]
         sh2.parent = None
-        psi2.group_sites(n)
         if sh.L % n:
             what += ':L%n!=0'
+        psi2.group_sites(n)
     elif kind == 'split':
-        tp = None if act[1] is None else {'chi_max': act[1]}
         sh2.blocks = [c for b in sh.blocks for c in b]
-        err = psi2.group_split(tp)
-        if trunc_check(what, sh2, psi2, err):
+        err = psi2.group_split(None if act[1] is None else {'chi_max': act[1]})
+        if trunc_check(what, [sh2], psi2, err):
             reanchor(psi2, sh2, what)
             canonical = False
     elif kind == 'chi':
         extra = chi_pattern(psi, act[1])
         rng = np.random.default_rng([seed, 5])
-        old_S = [np.array(s) for s in psi._S]
+        psi_B = psi.copy()
+        psi_B.convert_form('B')
         try:
             perms = psi2.enlarge_chi(extra, random_fct=lambda size: rng.standard_normal(size))
         except ValueError as e:
@@ -559,13 +558,12 @@ def step(psi, sh, act, ctx):
                 return None, None, 'rejected:no-room-for-extra-charges'
             raise
         sh2.zeroS = True
-        for b, (p, s_old) in enumerate(zip(perms, old_S)):
-            add = extra[b] if b < len(extra) else extra[0]
-            nadd = add if isinstance(add, int) else (0 if add is None else add.ind_len)
-            want = np.concatenate([s_old, np.zeros(nadd)])
-            if p is not None:
-                want = want[p]
-            if b < len(psi2._S) and (len(psi2._S[b]) != len(want) or np.abs(psi2._S[b] - want).max() > 1e-12):
+        for b, S_new in enumerate(psi2._S):  # documented: new_S = concatenate(old_S, zeros)[perm]
+            add = extra[b]
+            want = np.concatenate([psi_B._S[b], np.zeros(add if isinstance(add, int) else (0 if add is None else add.ind_len))])
+            if perms[b] is not None:
+                want = want[perms[b]]
+            if len(S_new) != len(want) or np.abs(S_new - want).max() > 1e-12:
                 raise Viol(what + ':singular-values', 'new S on bond %d is not concatenate(old_S, zeros)[perm]' % b)
     elif kind == 'compress':
         _, method, chi_max = act
@@ -574,34 +572,32 @@ def step(psi, sh, act, ctx):
             err = psi2.compress_svd(tp)
         else:
             err = psi2.compress(dict(compression_method=method, trunc_params=tp, max_trunc_err=None))
-        what = ('compress_svd' if method != 'variational' else 'compress-variational') + ':' + bc
         sh2.zeroS = False
-        if method == 'variational':
-            if chi_max is not None and min(chi_max, 10 ** 6) < max(psi.chi):
+        if method == 'variational':   # returns the maximal two-site error only: no bound on the total overlap
+            what = 'compress-variational:' + bc
+            if chi_max is not None and chi_max < max(psi.chi):
                 reanchor(psi2, sh2, what)
                 canonical = False
-        elif trunc_check(what, sh2, psi2, err):
+        elif trunc_check(what, [sh2], psi2, err):
             if chi_max is not None and max(psi2.chi) > chi_max:
                 raise Viol(what + ':chi_max', 'chi = %r after compression with chi_max=%d' % (psi2.chi, chi_max))
             reanchor(psi2, sh2, what)
             canonical = False
+        elif bc == 'finite':
+            canonical = True
     elif kind == 'inv':
-        o = list(range(sh.L))[::-1]
-        T, sh2.elem, sh2.blocks = D.permute_blocks(sh.T, sh.elem, sh.blocks, o, None)
+        T, sh2.elem, sh2.blocks = D.permute_blocks(sh.T, sh.elem, sh.blocks, list(range(sh.L))[::-1], None)
         sh2.T = np.moveaxis(np.moveaxis(T, -1, 0), 1, -1)
         sh2.parent = None
-        sh2._cache = None
         if psi.segment_boundaries[0] is not None:
             what += ':with-segment_boundaries'
         psi2.spatial_inversion()
     elif kind == 'cell':
         f = act[1]
-        T = sh.T
         for _ in range(f - 1):
-            T = np.tensordot(T, sh.T, axes=(-1, 0))
-        sh2.T, sh2.elem, sh2.blocks = T, sh.elem * f, sh.blocks * f
-        sh2._cache = None
-        check_norm = False
+            sh2.T = np.tensordot(sh2.T, sh.T, axes=(-1, 0))
+        sh2.elem, sh2.blocks = sh.elem * f, sh.blocks * f
+        check_norm = False   # nothing documented about `norm` (per unit cell) when the unit cell changes
         psi2.enlarge_mps_unit_cell(f)
     elif kind == 'roll':
         roll_blocks(sh2, act[1])
@@ -611,12 +607,11 @@ def step(psi, sh, act, ctx):
     elif kind == 'form':
         f = act[1].split(',') if isinstance(act[1], str) and ',' in act[1] else act[1]   # 'A,C,B' = one form per site
         psi2.convert_form(f)
-        want = psi._parse_form(f)
-        if list(psi2.form) != list(want):
+        if list(psi2.form) != list(psi._parse_form(f)):
             raise Viol(what + ':form-attribute', 'form = %r after convert_form(%r)' % (psi2.form, f))
     elif kind == 'segment':
         _, first, last = act
-        seg = psi.extract_segment(first, last)
+        psi2 = psi.extract_segment(first, last)
         m = last - first + 1
         if bc == 'infinite':
             tmp = sh.copy()
@@ -628,16 +623,14 @@ def step(psi, sh, act, ctx):
             Tm = Tm.reshape(int(np.prod(Tm.shape[:m])), -1)
             rho = Tm @ Tm.conj().T
             elem = sh.elem[first:last + 1]
-        T = psi_T(seg, what)
+        T = psi_T(psi2, what)
         Ts = np.moveaxis(T, 0, -2).reshape(rho.shape[0], -1)
         d = np.abs(Ts @ Ts.conj().T - rho).max()
         if d > TOL[bc]:
             raise Viol(what + ':state', 'reduced density matrix of the segment differs from the source by %.3g' % d)
-        if abs(seg.norm - psi.norm) > 1e-12:
-            raise Viol(what + ':norm', 'segment norm %r, source norm %r' % (seg.norm, psi.norm))
-        sh2 = Shadow('segment', T, elem, [1] * m, psi.norm)
-        sh2.parent = (psi, first, last)
-        psi2 = seg
+        # the outer Schmidt bases are not observable from the dense source: continue from the extracted tensor
+        sh2 = Shadow('segment', T, elem, [1] * m, sh.norm)
+        sh2.parent, sh2.canon = (psi, first, last), sh.canon
     elif kind == 'enl':
         parent, first, last = sh.parent
         kw = dict(add_unitcells=act[2]) if act[1] == 'add' else dict(new_first_last=tuple(act[2]))
@@ -645,15 +638,11 @@ def step(psi, sh, act, ctx):
         if act[1] == 'nfl' and (nf, nl) != tuple(act[2]):
             raise Viol(what + ':new_first_last', 'returned (%d, %d) for new_first_last=%r' % (nf, nl, act[2]))
         T = sh.T
-        with warnings.catch_warnings():
-            warnings.simplefilter('ignore')
-            for j in range(first - 1, nf - 1, -1):
-                T = np.tensordot(parent.get_B(j, 'A').transpose(['vL', 'p', 'vR']).to_ndarray(), T, axes=(-1, 0))
-            for j in range(last + 1, nl + 1):
-                T = np.tensordot(T, parent.get_B(j, 'B').transpose(['vL', 'p', 'vR']).to_ndarray(), axes=(-1, 0))
+        for j in range(first - 1, nf - 1, -1):
+            T = np.tensordot(parent.get_B(j, 'A').transpose(['vL', 'p', 'vR']).to_ndarray(), T, axes=(-1, 0))
+        for j in range(last + 1, nl + 1):
+            T = np.tensordot(T, parent.get_B(j, 'B').transpose(['vL', 'p', 'vR']).to_ndarray(), axes=(-1, 0))
         Tr = psi_T(res, what)
-        if psi.segment_boundaries[0] is not None:
-            what += ':with-segment_boundaries'
         if Tr.shape != T.shape or np.linalg.norm(Tr - T) > 1e-8:
             raise Viol(what + ':state', 'enlarged segment (%d, %d) differs from A..A psi_segment B..B%s' % (
                 nf, nl, '' if Tr.shape != T.shape else ' by %.3g' % np.linalg.norm(Tr - T)))
@@ -664,11 +653,11 @@ def step(psi, sh, act, ctx):
         want = psi.chinfo.make_valid(np.zeros(psi.chinfo.qnumber, int) if q is None else q)
         if np.any(psi2.get_total_charge() != want):
             raise Viol(what + ':total-charge', 'get_total_charge() = %r after gauging to %r' % (psi2.get_total_charge(), want))
-    elif kind == 'copy':
-        pass
-    else:
+    elif kind != 'copy':
         raise ValueError(act)
-    check(psi2, sh2, what, signfree=signfree, canonical=canonical, check_norm=check_norm)
+    sh2._cache = None
+    sh2.canon = sh.canon if canonical is None else canonical
+    check(psi2, sh2, what, signfree=signfree, canonical=sh2.canon, check_norm=check_norm)
     if not check_norm:
         sh2.norm = psi2.norm
     return psi2, sh2, 'ok'
@@ -784,7 +773,7 @@ def alphabet(psi, sh, ctx, full, tier):
             acts += [('gauge', 'zero')] + ([('gauge', 'q')] if full else [])
     # --- transformations also offered on grouped states
     kinds = ['auto'] + (['none', 'explicit'] if full and fin else []) + \
-        (['autoInv'] if full and sh.plain and all(np.all(np.asarray(s.JW_exponent) == [0, 1]) for s in sh.elem) else [])
+        (['autoInv'] if full and sh.plain and all(np.any(s.JW_exponent) for s in sh.elem) else [])
     for i in (range(nb) if full else [0, nb - 1]):
         acts += [('swap', i, k, None) for k in kinds if k != 'explicit' or (sh.plain and i + 1 < L)]
         if full or i == 0:
